@@ -163,6 +163,13 @@ DmaStep(m, k) ==
            off1 == m.d.off + c
        IN [m EXCEPT !.mem = mem1, !.d = IF off1 < 160 THEN [m.d EXCEPT !.off = off1] ELSE D!Idle]
 
+\* the bus writes of the DMA engine during k machine cycles, in order
+DmaWrites(m, k) ==
+  IF ~m.d.active THEN << >>
+  ELSE LET c == D!Count(m.d, k, 160) IN
+       [i \in 1..c |-> <<65024 + m.d.off + i - 1, MRead(m, (256 * m.d.page + m.d.off + i - 1) % 65536)>>]
+
+\* [m |-> machine afterwards, wr |-> bus writes performed by the DMA engine]
 CatchUp(m, clocks) ==
   LET m1 == DmaStep(m, clocks \div 4)
       tr == T!Run(m1.t, clocks)
@@ -170,7 +177,8 @@ CatchUp(m, clocks) ==
       jc == J!Collect(m1.js)
       bits == (IF "vblank" \in lr.req THEN 1 ELSE 0) + (IF "stat" \in lr.req THEN 2 ELSE 0)
               + (IF tr.irq THEN 4 ELSE 0) + (IF jc.out THEN 16 ELSE 0)
-  IN [m1 EXCEPT !.t = tr.t, !.p = lr.p, !.js = jc.js, !.iflag = m1.iflag | bits]
+  IN [m |-> [m1 EXCEPT !.t = tr.t, !.p = lr.p, !.js = jc.js, !.iflag = m1.iflag | bits],
+      wr |-> DmaWrites(m, clocks \div 4)]
 
 (* ------------------------------------------------------------------ *)
 (* Interrupt check (generalises Irq!Dispatch: the pushes go through    *)
@@ -214,9 +222,9 @@ RunAfter(run, st) == CASE st = StStop -> "Stop" [] st = StHalt -> "Halt" [] OTHE
 \* result of a step: [m, out (serial bytes), cyc (machine cycles delivered to the devices), wr, disp, ok]
 Finish(m0, cyc, out, wr, ok) ==
   LET total == cyc + m0.pend
-      m1 == CatchUp([m0 EXCEPT !.pend = 0], 4 * total)
-      dd == DispatchM(m1)
-  IN [m |-> dd.m, out |-> out \o dd.out, cyc |-> total, wr |-> wr \o dd.wr, disp |-> dd.disp, ok |-> ok]
+      cu == CatchUp([m0 EXCEPT !.pend = 0], 4 * total)
+      dd == DispatchM(cu.m)
+  IN [m |-> dd.m, out |-> out \o dd.out, cyc |-> total, wr |-> wr \o cu.wr \o dd.wr, disp |-> dd.disp, ok |-> ok]
 
 StepInstr(m) ==
   LET e == ExecM(m)
@@ -230,9 +238,9 @@ StepBlock(m) ==
 
 \* a halted or stopped CPU: the devices advance one machine cycle; cycles already charged stay pending
 HaltTick(m) ==
-  LET m1 == CatchUp(m, 4)
-      dd == DispatchM(m1)
-  IN [m |-> dd.m, out |-> dd.out, cyc |-> 1, wr |-> dd.wr, disp |-> dd.disp, ok |-> TRUE]
+  LET cu == CatchUp(m, 4)
+      dd == DispatchM(cu.m)
+  IN [m |-> dd.m, out |-> dd.out, cyc |-> 1, wr |-> cu.wr \o dd.wr, disp |-> dd.disp, ok |-> TRUE]
 
 \* Core::update without / with the recompiler feature
 UpdateInstr(m) == IF m.run = "Run" THEN StepInstr(m) ELSE HaltTick(m)
